@@ -75,6 +75,10 @@ func (m *urlModule) buildParamsFromObject(o *goja.Object) searchParams {
 		if err != nil {
 			panic(err)
 		}
+		if pairs == nil {
+			// Object.entries was replaced by a native function that returns no value
+			pairs = goja.Undefined()
+		}
 		m.forOf(pairs, func(pair goja.Value) bool {
 			p := pair.ToObject(m.r)
 			name, value := p.Get("0"), p.Get("1")
@@ -244,7 +248,7 @@ func (m *urlModule) createURLSearchParamsPrototype() *goja.Object {
 			for _, pair := range u.searchParams {
 				// value, name, searchParams
 				_, err := fn(
-					nil,
+					goja.Undefined(), // not nil: a native function as callback dereferences its this
 					m.r.ToValue(pair.value),
 					m.r.ToValue(pair.name),
 					call.This,
